@@ -553,3 +553,38 @@ Section GammaProject.
     - field. split; lra.
   Qed.
 End GammaProject.
+
+(* ------------------------------------------------------------------ *)
+(* the code as it is now (products carry log_norm): (a*b)/b is a in full for NormalMessage *)
+Lemma b_sum_variant_indep_R (V : variant) (a : rmsg) (l : list rmsg) :
+  fam (b_sum Rops V a l) = fam (b_sum Rops pinned a l) /\ bmeta (b_sum Rops V a l) = bmeta (b_sum Rops pinned a l)
+  /\ elems (b_sum Rops V a l) = elems (b_sum Rops pinned a l).
+Proof. unfold b_sum, bmeta. destruct (is_fixed a); cbn; repeat split; reflexivity. Qed.
+
+Lemma b_div_cong_R (x y b : rmsg) : fam x = fam y -> bmeta x = bmeta y -> elems x = elems y ->
+  fam (b_div Rops x b) = fam (b_div Rops y b) /\ bmeta (b_div Rops x b) = bmeta (b_div Rops y b)
+  /\ elems (b_div Rops x b) = elems (b_div Rops y b).
+Proof.
+  destruct x as [fx sx ex lx ix lox hix], y as [fy sy ey ly iy loy hiy]. unfold bmeta. cbn.
+  intros F M E. inversion M; subst. unfold b_div, is_fixed, nat_of. cbn.
+  destruct (family_eqb fy FFixed); cbn; repeat split; reflexivity.
+Qed.
+
+Lemma normal_div_mul_full (V : variant) (a b : rmsg) : product_keeps_lognorm V = true ->
+  normal_valid a -> nvalid b -> length (elems a) = length (elems b) ->
+  let r := b_div Rops (b_sum Rops V a [b]) b in
+  fam r = FNormal /\ bmeta r = bmeta a /\ elems r = elems a /\ lognorm r = lognorm a.
+Proof.
+  intros K Va Vb L r. destruct (normal_div_mul_partial a b Va Vb L) as (F & M & E & _).
+  destruct (b_sum_variant_indep_R V a [b]) as (F1 & M1 & E1).
+  destruct (b_div_cong_R _ _ b F1 M1 E1) as (F2 & M2 & E2).
+  assert (Fa : fam a = FNormal) by apply Va.
+  repeat split.
+  - unfold r. rewrite F2. exact F.
+  - unfold r. rewrite M2. exact M.
+  - unfold r. rewrite E2. exact E.
+  - unfold r, b_div. assert (NF : is_fixed (b_sum Rops V a [b]) = false).
+    { unfold is_fixed. rewrite F1. unfold b_sum. rewrite (normal_not_fixed a Fa). cbn [fam]. rewrite Fa. reflexivity. }
+    rewrite NF. cbn [lognorm]. unfold b_sum. rewrite (normal_not_fixed a Fa), K.
+    cbn [lognorm c0 oadd osub fold_left Rops RopsP]. ring.
+Qed.
